@@ -1216,6 +1216,9 @@ class Interp(Engine):
         raise Unsupported("call of native %r" % (obj,))
 
     def instantiate(self, cls, args, kwargs):
+        ext = self.contract.externals.get("%s:%s" % (getattr(cls, "__module__", ""), getattr(cls, "__qualname__", "")))
+        if ext is not None:
+            return ext(self, args, kwargs)      # constructor modelled by the contract (record of the arguments)
         if cls in NP_INT_TYPES:
             return self.np_int_cast(NP_INT_TYPES[cls], args[0])
         if issubclass(cls, tuple) and hasattr(cls, "_fields"):
